@@ -422,10 +422,9 @@ func TestVerifC18CLI(t *testing.T) {
 		if c.Gzip {
 			z = "gzip"
 		}
-		dest := c.Dest
-		r.Violate(fmt.Sprintf("cli/%s:%s/%s/exit0", c.Format, z, dest),
-			fmt.Sprintf("%s (result of %d bytes on a regular file): every/some write(2) failed but the exit status is 0; stderr tail: %q",
-				c, ct.size, c18tail(res.stderr, 200)), c)
+		r.Violate(fmt.Sprintf("cli/%s:%s/exit0", c.Format, z),
+			fmt.Sprintf("%s (result of %d bytes on a regular file): a write(2) of the command failed but the exit status is 0 (fatal/error message on stderr: %v)",
+				c, ct.size, strings.Contains(res.stderr, "level=fatal") || strings.Contains(res.stderr, "level=error")), c)
 	}
 
 	if rc := r.ReplayCase(); rc != nil {
@@ -439,15 +438,17 @@ func TestVerifC18CLI(t *testing.T) {
 
 	type tf struct{ tool, format string }
 	tfs := []tf{{"obiconvert", "fasta"}, {"obiconvert", "fastq"}, {"obiconvert", "json"}, {"obicsv", "csv"}}
-	fifoK := []int{0, 1, 4095, 4096, 4097, 8192, 20000}
+	fifoK := []int{0, 4096, 20000}
+	sizes := []string{"small", "large"}
 	if verifkit.Thorough() {
 		fifoK = []int{0, 1, 2, 100, 4095, 4096, 4097, 8191, 8192, 8193, 12288, 16384, 20000, 30000, 40000, 50000}
+		sizes = []string{"small", "medium", "large"}
 	}
 	r.Bound("cli_fifo_offsets", fmt.Sprint(fifoK))
 	k := 0
 	for _, x := range tfs {
 		for _, gz := range []bool{false, true} {
-			for _, in := range []string{"small", "medium", "large"} {
+			for _, in := range sizes {
 				for _, dest := range []string{"devfull-file", "devfull-stdout"} {
 					if x.tool == "obicsv" && dest == "devfull-file" {
 						continue // obicsv only writes to its standard output
@@ -473,11 +474,4 @@ func TestVerifC18CLI(t *testing.T) {
 		}
 	}
 	r.Sample(c18cliCase{Tool: "obiconvert", Format: "fasta", Input: "small", Dest: "devfull-file"})
-}
-
-func c18tail(s string, n int) string {
-	if len(s) > n {
-		return s[len(s)-n:]
-	}
-	return s
 }
